@@ -206,7 +206,13 @@ func runDB(dir string, s sess.Session) {
 
 func recoverDB(dir string, keys []string) {
 	d := sess.Dump{Gets: map[string]*string{}, GetErr: map[string]string{}}
-	db, err := simpledb.NewSimpleDB(dir)
+	var ropts []simpledb.ExtraOption
+	if os.Getenv("VCHILD_SMALL_BUFFERS") != "" {
+		// the recovering session uses small buffers: every few bytes of the table it flushes reach the file system on
+		// their own (with the 4 MiB defaults a small table is written in one piece when it is closed)
+		ropts = append(ropts, simpledb.WriteBufferSizeBytes(16), simpledb.ReadBufferSizeBytes(4096))
+	}
+	db, err := simpledb.NewSimpleDB(dir, ropts...)
 	if err == nil {
 		err = db.Open()
 	}
